@@ -142,6 +142,8 @@ def run(ctx):
     _run_single(ctx)
     from props import c01
     c01.histories_for(ctx, "C05", 300 if ctx.tier == "quick" else 4000)
+    from props import compare
+    compare.run_section(ctx)
 
 
 def replay(ctx, rp):
